@@ -7,6 +7,7 @@ package symex
 // for longer than the timeout" — the schedule a timeout exists for — and nothing finer.
 
 import (
+	"fmt"
 	"go/types"
 
 	"vcheck/smt"
@@ -49,6 +50,25 @@ func (e *Engine) newTimer(d Value, chanOnly bool) Value {
 	return Ptr{Obj: st.alloc(tv, tt, "time.Timer")}
 }
 
+// afterFunc implements time.AfterFunc: the callback runs on a new goroutine when the timer fires.
+func (e *Engine) afterFunc(d Value, f Value) Value {
+	cl, ok := f.(Closure)
+	if !ok {
+		e.unsupported("time.AfterFunc with a callback that is not a function value")
+	}
+	st := e.st
+	ch := st.alloc(&ChanV{Cap: 1}, nil, "chan")
+	st.timers = append(st.timers, TimerRec{Chan: ch, Dur: durConst(d), Fn: &cl, Parent: st.thread, Seq: st.accSeq})
+	tt := e.timerType()
+	tv := zeroValue(tt).(*StructV)
+	idx := timerChanField(tt)
+	if idx < 0 {
+		e.unsupported("time.Timer has no field C")
+	}
+	tv.F[idx] = ChanRef{Obj: ch} // (the real C is nil for AfterFunc timers; here it identifies the timer)
+	return Ptr{Obj: st.alloc(tv, tt, "time.Timer")}
+}
+
 func (e *Engine) timerChanOf(t Value) int {
 	p, ok := t.(Ptr)
 	if !ok || p.IsNil() {
@@ -78,7 +98,13 @@ func (e *Engine) stopTimer(t Value) bool {
 
 func (e *Engine) rearmTimer(t Value, d Value) {
 	ch := e.timerChanOf(t)
-	e.st.timers = append(e.st.timers, TimerRec{Chan: ch, Dur: durConst(d)})
+	rec := TimerRec{Chan: ch, Dur: durConst(d)}
+	for _, r := range e.st.timers {
+		if r.Chan == ch && r.Fn != nil {
+			rec.Fn, rec.Parent, rec.Seq = r.Fn, e.st.thread, e.st.accSeq // Reset of an AfterFunc timer: the callback runs again
+		}
+	}
+	e.st.timers = append(e.st.timers, rec)
 }
 
 // fireTimer delivers the next pending timer; false if there is none.
@@ -97,6 +123,21 @@ func (e *Engine) fireTimer() bool {
 		return false
 	}
 	st.timers[best].Fired = true
+	if fn := st.timers[best].Fn; fn != nil {
+		// the callback runs on a goroutine of its own (a logical thread of its own for the lockset)
+		st.nextGor++
+		name := st.timers[best].Parent + "/timer#" + fmt.Sprint(st.nextGor)
+		if st.spawns == nil {
+			st.spawns = map[string]SpawnInfo{}
+		}
+		st.spawns[name] = SpawnInfo{Parent: st.timers[best].Parent, Seq: st.timers[best].Seq} // ordered after what Parent did before it armed the timer
+		task := &Task{fn: *fn, site: "time.AfterFunc", spawnSeq: st.accSeq, parent: st.timers[best].Parent}
+		st.others = append(st.others, &Gor{ID: st.nextGor, task: task, thread: name})
+		st.progress++
+		st.events = append(st.events, "timer-fired")
+		st.ghost["timers-fired"]++
+		return true
+	}
 	o := st.writable(st.timers[best].Chan)
 	ch := o.Val.(*ChanV)
 	if len(ch.Buf) < 1 {
